@@ -946,10 +946,122 @@ def _comp_element(v):
     return None
 
 
+def _conversion_laws(ctx: Ctx, rule: str) -> bool:
+    """The conversions between constraint lists and matrices, put to the kernel interpreter on symbolic terms: row i /
+    column j of the matrix is the coefficient of variable j in term i (0 when absent), the vector holds the constants,
+    the context gets the same treatment over the same columns, and the back conversion returns the very terms.  True
+    when the interpreter followed all four functions (then the reading of their shape is not needed)."""
+    from .rules_kernels import _eq, coefs
+    from .termalg import DictV, Key, ListV, Raised, Rec, TermAlg, TupV, num, sym
+    from .termalg import Undecidable as _Und
+
+    prog = ctx.prog
+    x, y, z, w = Key("x"), Key("y"), Key("z"), Key("w")
+
+    def term(p, ks):
+        return Rec("PolyhedralTerm", {"variables": DictV({k: sym("%s_%s" % (p, k.name)) for k in ks}), "constant": sym(p + "_c")})
+
+    def tl(ts):
+        return Rec("PolyhedralTermList", {"terms": ListV(ts)})
+
+    # the third term mentions no variable (0 <= e_c, what is left when like terms cancel): it is a row like any other
+    T = [term("a", [x, y]), term("b", [y, z]), term("e", []), term("d", [x])]
+    C = [term("c", [z, w]), term("f", [])]
+    f_fwd = prog.func(PTL + "termlist_to_polytope")
+    f_back = prog.func(PTL + "polytope_to_termlist")
+    f_t = prog.func("PolyhedralTerm.term_to_polytope")
+    f_b = prog.func("PolyhedralTerm.polytope_to_term")
+    results = []
+    try:
+        r = TermAlg(prog).call(f_fwd, [tl(T), tl(C)])
+        if not (isinstance(r, TupV) and len(r.items) == 5):
+            results.append((f_fwd, "termlist_to_polytope: returns (variables, A, b, A_ctx, b_ctx)", "returns %s" % type(r).__name__))
+        else:
+            vs, A, b, Ac, bc = r.items
+            names = [k.name for k in vs.items] if isinstance(vs, ListV) else None
+            prob = None
+            if names is None or sorted(names) != ["w", "x", "y", "z"] or len(set(names)) != 4:
+                prob = "the column variables are %s for terms over x, y, z and a context over z, w" % names
+            else:
+                for label, terms, M, v in (("terms", T, A, b), ("context", C, Ac, bc)):
+                    rows = M.items if isinstance(M, ListV) else None
+                    if rows is None or len(rows) != len(terms) or not isinstance(v, ListV) or len(v.items) != len(terms):
+                        prob = "%d %s give %s rows and %s bounds" % (len(terms), label, None if rows is None else len(rows), len(v.items) if isinstance(v, ListV) else None)
+                        break
+                    for i, t in enumerate(terms):
+                        cf = coefs(t)
+                        row = rows[i].items if isinstance(rows[i], ListV) else []
+                        if len(row) != 4:
+                            prob = "row %d of the %s has %d entries for 4 columns" % (i, label, len(row))
+                            break
+                        for j, nm in enumerate(names):
+                            if not _eq(row[j], cf.get(nm, num(0))):
+                                prob = "%s row %d, column of %s holds %s, the term's coefficient is %s" % (label, i, nm, row[j].show(), cf.get(nm, num(0)).show())
+                                break
+                        if prob is None and not _eq(v.items[i], t.f["constant"]):
+                            prob = "%s bound %d is %s, the term's constant is %s" % (label, i, v.items[i].show(), t.f["constant"].show())
+                        if prob:
+                            break
+                    if prob:
+                        break
+            results.append((f_fwd, "termlist_to_polytope: row i / column j is the coefficient of variable j in term i, bounds are the constants, the context over the same columns", prob))
+            if prob is None:
+                back = TermAlg(prog).call(f_back, [A, b, vs])
+                got = back.f["terms"].items if isinstance(back, Rec) and isinstance(back.f.get("terms"), ListV) else None
+                prob = None
+                if got is None or len(got) != len(T):
+                    prob = "%d rows come back as %s terms" % (len(T), None if got is None else len(got))
+                else:
+                    for i, (t0, t1) in enumerate(zip(T, got)):
+                        c0, c1 = coefs(t0), coefs(t1)
+                        for nm in sorted(set(c0) | set(c1)):
+                            if not _eq(c0.get(nm, num(0)), c1.get(nm, num(0))):
+                                prob = "term %d: coefficient of %s comes back as %s, was %s" % (i, nm, c1.get(nm, num(0)).show(), c0.get(nm, num(0)).show())
+                        if not _eq(t0.f["constant"], t1.f["constant"]):
+                            prob = "term %d: constant comes back as %s, was %s" % (i, t1.f["constant"].show(), t0.f["constant"].show())
+                results.append((f_back, "polytope_to_termlist: converting the matrix back gives the very terms (every row, every non-zero coefficient, every bound)", prob))
+        # an empty context adds no row and no column
+        r2 = TermAlg(prog).call(f_fwd, [tl(T), tl([])])
+        vs2 = r2.items[0]
+        prob = None
+        if sorted(k.name for k in vs2.items) != ["x", "y", "z"] or len(r2.items[1].items) != len(T):
+            prob = "with an empty context the columns are %s and there are %d rows" % ([k.name for k in vs2.items], len(r2.items[1].items))
+        results.append((f_fwd, "termlist_to_polytope: an empty context adds neither rows nor columns", prob))
+        # term level
+        rt = TermAlg(prog).call(f_t, [T[0], ListV([z, y, x])])
+        prob = None
+        if not (isinstance(rt, TupV) and len(rt.items) == 2 and isinstance(rt.items[0], ListV) and len(rt.items[0].items) == 3):
+            prob = "returns %s" % type(rt).__name__
+        else:
+            want = [num(0), sym("a_y"), sym("a_x")]
+            if not all(_eq(a_, b_) for a_, b_ in zip(rt.items[0].items, want)) or not _eq(rt.items[1], sym("a_c")):
+                prob = "a_x x + a_y y <= a_c over the columns [z, y, x] gives %s, %s" % ([c_.show() for c_ in rt.items[0].items], rt.items[1].show())
+        results.append((f_t, "term_to_polytope: coefficient i is the coefficient of variable_list[i], constant passed through", prob))
+        rb = TermAlg(prog).call(f_b, [ListV([sym("p0"), sym("p1"), sym("p2")]), sym("k"), ListV([z, y, x])])
+        prob = None
+        cb = coefs(rb) if isinstance(rb, Rec) else None
+        if cb is None or not (_eq(cb.get("z", num(0)), sym("p0")) and _eq(cb.get("y", num(0)), sym("p1")) and _eq(cb.get("x", num(0)), sym("p2")) and _eq(rb.f["constant"], sym("k"))):
+            prob = "the row [p0, p1, p2] over [z, y, x] with bound k becomes %s" % (None if cb is None else {k_: v_.show() for k_, v_ in cb.items()})
+        results.append((f_b, "polytope_to_term: variables[i] gets poly[i], constant passed through", prob))
+    except (AnalysisError, _Und, AttributeError, IndexError, KeyError):
+        return False
+    except Raised as r_:
+        ctx.violation(rule, f_fwd.key, "the conversions between constraint lists and matrices run on well-formed lists", "raises %s" % r_.cls, where=f_fwd.where)
+        return True
+    for f_, construct, prob in results:
+        if prob is None:
+            ctx.ok(rule, f_.key, construct)
+        else:
+            ctx.violation(rule, f_.key, construct, prob, where=f_.where)
+    return True
+
+
 def rule_polytope_roundtrip(ctx: Ctx, rule: str = "matrix-roundtrip") -> None:
     """C07(a): termlist_to_polytope builds (A, b) from its first argument's terms and (A_ctx, b_ctx) from the
     second's, coefficient i <-> variable i; polytope_to_termlist maps row i / column j back to the same variables."""
     prog = ctx.prog
+    if _conversion_laws(ctx, rule):
+        return
     fi = prog.func(PTL + "termlist_to_polytope")
     ps = [p for p in Sim(prog, fi, loop_iters=(1,)).paths() if p.terminal == "return"]
     if not ps or any(p.value[0] != "tuple" or len(p.value[1]) != 5 for p in ps):
@@ -1112,6 +1224,15 @@ def rule_relax_tail(ctx: Ctx, rule: str = "relax-tail") -> None:
                         a0, a1 = val[2]
                         if a0 == ("attr", tl, "terms") and a1[0] == "attr" and a1[2] == "terms" and _is_gtwv(a1[1], tl):
                             okc = True
+                    # form 1b: the same difference written as a filter  [t for t in T.terms if t not in <those>.terms]
+                    if val[0] == "listcomp" and len(val[2]) == 1 and val[2][0][0] == ("attr", tl, "terms") and len(val[2][0][1]) == 1:
+                        elt, cond = val[1], val[2][0][1][0]
+                        if cond[0] == "un" and cond[1] == "Not" and cond[2][0] == "cmp" and cond[2][1] == "In":
+                            cond = ("cmp", "NotIn", cond[2][2], cond[2][3])
+                        if elt[0] == "iter" and elt[1] == ("attr", tl, "terms") and cond[0] == "cmp" and cond[1] == "NotIn" and cond[2] == elt:
+                            a1 = cond[3]
+                            if a1[0] == "attr" and a1[2] == "terms" and _is_gtwv(a1[1], tl):
+                                okc = True
             # form 2: return T - T.get_terms_with_vars(vars_to_elim)
             if tl[0] == "bin" and tl[1] == "Sub" and _is_gtwv(tl[3], tl[2]):
                 okc = True
@@ -1267,13 +1388,26 @@ def rule_transform(ctx: Ctx, rule: str = "transform") -> None:
                 ctx.violation(rule, key, "_transform: a term without eliminated variables is copied unchanged", "it becomes %s" % show(val, 3), where=fi.where)
         # trailing simplification only when asked
         simp = [e for e in p.calls("simplify")]
-        asked = any(t == "simplify" and c for (t, c) in p.decisions)
+        asked = _flag_on_path(p, ("param", "simplify")) is True
         construct = "_transform: final simplification against the context only when simplify is set"
         if bool(simp) == asked and all(list(e["args"]) + [x for _k, x in e["kws"]] == [("param", "context")] for e in simp):
             ctx.ok(rule, key, construct + " @ " + p.label()[:60], nontrivial=False)
         else:
             ctx.violation(rule, key, construct, "simplify calls: %s with simplify=%s" % ([show(e["result"], 3) for e in simp], asked), where=fi.where)
     ctx.floor("_transform paths", n, 6)
+
+
+def _flag_on_path(p, flag) -> Optional[bool]:
+    """What a path decided about a Boolean value, whichever way round the test is written (`if flag` / `if not flag`)."""
+    for e in p.events:
+        if e["kind"] != "branch":
+            continue
+        t = e["test"]
+        if t == flag:
+            return bool(e["taken"])
+        if isinstance(t, tuple) and t[:2] == ("un", "Not") and t[2] == flag:
+            return not e["taken"]
+    return None
 
 
 # ----------------------------------------------------------- dispatcher (C04 a)
